@@ -424,14 +424,14 @@ def op_allscopes(seval, args):
 def op_resolve_scope(seval, args):
     assert len(args) == 1, 'resolve-scope: exactly one argument required (resolve-scope name:symbol)'
     assert isinstance(args[0], Symbol), 'resolve-scope: exactly one argument required (resolve-scope name:symbol)'
-    if args[0].name in seval.aliases:
-        args[0].name = seval.aliases[args[0].name]
+    # look up the alias without modifying the program, the alias may change later
+    signal = seval.aliases.get(args[0].name, args[0].name)
 
     if seval.global_environment.read('CS') in seval.traces.scopes:
         # if the scope is a real scope add .
-        name = seval.global_environment.read('CS') + '.' + args[0].name
+        name = seval.global_environment.read('CS') + '.' + signal
     else:  # if scope is not a real scope it must be a group name, no dot required
-        name = seval.global_environment.read('CS') + args[0].name
+        name = seval.global_environment.read('CS') + signal
 
     assert seval.traces.contains(name), f'resolve-scope: No signal with name "{name}"'
     return seval.traces.signal_value(name)
@@ -537,10 +537,8 @@ def op_in_groups(seval, args):
 def op_resolve_group(seval, args):
     assert len(args) == 1, 'resolve-group (#): exactly one argument required (resolve-group name:symbol)'
     assert isinstance(args[0], Symbol), 'resolve-group: exactly one argument required (resolve-group name:symbol)'
-    if args[0].name in seval.aliases:
-        args[0].name = seval.aliases[args[0].name]
-
-    name = seval.group + args[0].name
+    # look up the alias without modifying the program, the alias may change later
+    name = seval.group + seval.aliases.get(args[0].name, args[0].name)
 
     assert seval.traces.contains(name), f'resolve-group: No signal with name "{name}"'
     return seval.traces.signal_value(name)
